@@ -37,6 +37,9 @@ type c16Scenario struct {
 	// the client is given WithInactivityCheck and then WithReconnect (same timeout and
 	// back-off): both say "reconnect", the second one says nothing about the probe
 	ThenReconnectOption bool `json:"thenReconnectOption,omitempty"`
+	// the options reach the client through SetOption before the first Connect instead of
+	// through the constructor
+	ViaSetOption bool `json:"viaSetOption,omitempty"`
 }
 
 type c16Outcome struct {
@@ -183,12 +186,24 @@ func runC16Unguarded(w *kit.World, sc c16Scenario, faults []kit.Fault) c16Outcom
 			opts = append(opts, client.WithReconnect(2*time.Second, backoff.NewConstantBackOff(3*time.Millisecond)))
 		}
 	}
-	c, err := kit.NewClient(w, px.Endpoint(), opts...)
+	ctorOpts := opts
+	if sc.ViaSetOption {
+		ctorOpts = nil
+	}
+	c, err := kit.NewClient(w, px.Endpoint(), ctorOpts...)
 	if err != nil {
 		problem("harness", "%v", err)
 		return out
 	}
 	defer c.Close()
+	if sc.ViaSetOption {
+		for _, opt := range opts {
+			if err := c.SetOption(opt); err != nil {
+				problem("reconnect.setoption", "SetOption on a client that never connected: %v", err)
+				return out
+			}
+		}
+	}
 	// with a stalled (silent) connection calls end when their context does: keep those short
 	callTimeout := 15 * time.Second
 	if sc.Inactivity {
@@ -544,6 +559,7 @@ func TestC16(t *testing.T) {
 			sc.ThenReconnectOption = rapid.Bool().Draw(t, "thenreconnectoption")
 			faults[0].Mode = "stall"
 		}
+		sc.ViaSetOption = rapid.IntRange(0, 3).Draw(t, "viasetoption") == 0
 		t0 := time.Now()
 		o := runC16(w, sc, faults)
 		kase := c16Case{Scenario: sc, Faults: faults, Problems: o.Problems}
@@ -553,7 +569,7 @@ func TestC16(t *testing.T) {
 		if len(o.Problems) > 0 {
 			kit.Fail(t, "C16", o.Class, kase, "%s", strings.Join(o.Problems, "; "))
 		}
-		kit.Record("C16", string(kit.MustJSON(kase)), o.Reconnects > 0 && faults[0].K > 6, func() interface{} { return kase }, "sampled", fmt.Sprintf("reconnects:%d", o.Reconnects), "mode:"+faults[0].Mode)
+		kit.Record("C16", string(kit.MustJSON(kase)), o.Reconnects > 0 && faults[0].K > 6, func() interface{} { return kase }, "sampled", fmt.Sprintf("reconnects:%d", o.Reconnects), "mode:"+faults[0].Mode, fmt.Sprintf("options-via-setoption:%v", sc.ViaSetOption))
 	})
 }
 
